@@ -327,7 +327,7 @@ struct RegHarness : Harness {
                                 "constraint_refused", "always_fail_refused", "set_accepted", "unsafe_bypasses_constraint", "callback_area_set", "get_undecodable_storage", "big_endian_table", "sanitise_left_through_error_path", "first_init_failed_then_retried", "value_objects_with_stale_octets", "byte_order_requested_repeatedly", "areas_half_the_address_space_apart", "table_written_with_header_macros", "table_ends_at_top_of_address_space", "area_wider_than_64k_words"};
         if (p == "C02") return {"write_inside_64bit_register", "partial_overlap_violates_constraint", "block_spans_two_areas", "block_into_readonly", "block_into_hole",
                                 "block_write_accepted", "block_decode_failure", "zero_length_write", "readonly_not_at_request_start", "reinit_after_registers_removed", "block_of_64k_words_or_more", "value_objects_with_stale_octets", "byte_order_requested_repeatedly", "areas_half_the_address_space_apart", "table_written_with_header_macros", "table_ends_at_top_of_address_space", "area_wider_than_64k_words", "request_ends_at_last_address"};
-        if (p == "C03") return {"read_write_only_area_mid_area", "read_spans_two_areas", "read_into_hole", "zero_length_read", "iteration_starts_in_gap", "iteration_starts_mid_register",
+        if (p == "C03") return {"read_write_only_area_mid_area", "read_in_two_steps", "read_spans_two_areas", "read_into_hole", "zero_length_read", "iteration_starts_in_gap", "iteration_starts_mid_register",
                                 "iteration_stopped_by_callback", "iteration_negative_callback", "iteration_visits_several", "reinit_after_registers_removed", "area_without_read_callback", "value_objects_with_stale_octets", "byte_order_requested_repeatedly", "areas_half_the_address_space_apart", "table_written_with_header_macros", "table_ends_at_top_of_address_space", "area_wider_than_64k_words", "request_ends_at_last_address"};
         if (p == "C04") return {"defect_no_areas", "defect_areas_swapped", "defect_area_overlap", "defect_regs_swapped", "defect_reg_overlap", "defect_reg_straddles_area_end",
                                 "defect_reg_in_hole", "defect_bad_default", "wellformed_accepted", "restart_over_surviving_callback_storage", "ops_report_uninitialised", "empty_area_between_populated", "reinit_of_initialised_table_rejected", "reinit_after_registers_removed", "value_objects_with_stale_octets", "byte_order_requested_repeatedly", "areas_half_the_address_space_apart", "table_written_with_header_macros", "table_ends_at_top_of_address_space", "area_wider_than_64k_words"};
@@ -560,7 +560,7 @@ struct RegHarness : Harness {
                     return o;
                 }
             }
-            if (k == "br") { o["n"] = (long long)n; return o; }
+            if (k == "br") { o["n"] = (long long)n; if (r.chance(1, 4)) o["two"] = 1; return o; }   // two: the documented two-step form (hole check, then the unchecked reader)
             Json words = Json::arr();
             for (int64_t i = 0; i < n; ++i) words.push(k == "corrupt" ? Json((long long)r.below(65536)) : Json(-1));
             // replace slices by register encodings
@@ -1095,7 +1095,13 @@ struct RegHarness : Harness {
         size_t n = (size_t)n64;
         if (!S.clamp_n(addr, n)) return;
         GuardedBlock buf(n * 2 ? n * 2 : 2);
-        RegisterAccess a = S.down(register_block_read(&S.tbl, S.up(addr), (RegisterOffset)n, (RegisterAtom *)buf.p));
+        RegisterAccess a;
+        if (o.geti("two") && S.inited) {
+            // the same read in the two steps the header offers to callers that check once and read often: on an initialised table it is the same read
+            a = S.down(register_block_touches_hole(&S.tbl, S.up(addr), (RegisterOffset)n));
+            if (a.code == REG_ACCESS_SUCCESS) a = S.down(register_block_read_unsafe(&S.tbl, S.up(addr), (RegisterOffset)n, (RegisterAtom *)buf.p));
+            COUNT("probe.read_in_two_steps");
+        } else a = S.down(register_block_read(&S.tbl, S.up(addr), (RegisterOffset)n, (RegisterAtom *)buf.p));
         c.ev(EV_API, 6, (uint64_t)a.code, a.address); c.ops_done++; c.execs++;
         if (S.cb_oob) F("areabounds", "callback area accessed outside its storage");
         int64_t first_unmapped = -1; int fa = -1, la = -1; bool wo_mid = false;
